@@ -182,6 +182,9 @@ func c04(env *core.Env, kind string, faulty bool) {
 	maxFaults := 0
 	if faulty {
 		maxFaults = c.Range("nfaults", 1, 4)
+		if env.Tier == "thorough" && c.Bool("deep", 1, 3) {
+			maxFaults = c.Range("nfaults.deep", 4, 10)
+		}
 	}
 	r.faults = maxFaults
 	rate := c.Range("faultrate", 2, 6)
